@@ -53,7 +53,7 @@ def gen_function(modname, qualname, reg, theory=None):
         err = 'path explosion (recursion limit)'
     return dict(name=cname, obls=ex.obls, decls=ex.decl_lines(), error=err, dropped=ex.dropped,
                 hash=core.fn_hash(fn) + '.' + core.class_context(mod) + _inlined_hash(ex), paths=ex.paths,
-                bindings=core.binding_names(fn))
+                bindings=core.binding_names(fn), used=sorted(ex.used_contracts), inlined=sorted(ex.inlined))
 
 
 _BASE = None
